@@ -15,7 +15,8 @@ RULE = ("edit sequences of 6-10 ops drawn from create_*, drop_buses/lines/trafos
         "on nets of 6-9 buses with shuffled gapped indices; every step is one case (state before, op); a step that breaks the "
         "invariant is reverted so that every case starts from a consistent net; non-trivial = the op changed at least one table "
         "or raised after the table contained a row referenced by another table")
-ASSUMPTIONS = ["pandas: df.drop / .loc raise KeyError on missing labels; Index.difference sorts and de-duplicates; dict(zip()) last key wins",
+ASSUMPTIONS = ["drop_buses(drop_elements=False) is only exercised through fuse_buses (called directly it asks for dangling elements)",
+               "pandas: df.drop / .loc raise KeyError on missing labels; Index.difference sorts and de-duplicates; dict(zip()) last key wins",
                "reference-column (name based) groups and id_characteristic references are outside the Coq model (oracle only; name groups are C27)",
                "replace_* and drop_out_of_service_elements are outside the Coq model: their steps are checked by the oracle only"]
 TRUSTED = ["vf/c22_impl.py: observation of the key/foreign-key columns of the real tables and the python re-implementation of inv (dangling)",
@@ -378,13 +379,13 @@ def run(ctx):
     _replay_corpus(ctx, cases)
     import time
     t0 = time.time()
-    nseq = ctx.n(26, 320)
+    nseq = ctx.n(16, 320)
     for s in range(nseq):
         _run_sequence(ctx, rng, cases, rng.randint(6, 10))
     # focused streams: the ops the theorems talk about, on nets without the svc table
     core = ["create_bus", "create_el", "create_switch", "create_meas", "drop_buses", "drop_lines", "drop_trafos", "drop_elements",
             "reindex_buses", "reindex_elements", "cont_bus_index", "fuse_buses", "select_subnet"]
-    for s in range(ctx.n(8, 100)):
+    for s in range(ctx.n(5, 100)):
         _run_sequence(ctx, rng, cases, rng.randint(6, 10), allow=core, facts=False)
     t1 = time.time()
     _judge(ctx, cases)
